@@ -174,3 +174,28 @@ fn('emmet.css_matcher:match', props=P,
    modifies=[], allocates=True,
    locals={'pool': 'list[list[int]]', 'stack': 'list[list[int]]', 'result': 'list[MatchResult|None]',
            'pending_property': 'list[list[int]|None]'})
+
+fn('emmet.css_matcher:push', inline=True, props=P)
+
+OUT_CAP = {'pool': 'list[list[int]]', 'stack': 'list[list[int]]', 'result': 'list[tuple[int,int]]',
+           'prop': 'list[list[int]|None]', 'pos': 'int', 'source': 'str'}
+OUT_INV = ['len(prop) == 1', 'pool is not stack',
+           'owned(pool) and owned(stack) and owned(result) and owned(prop)',
+           'forall(0, len(stack), lambda i: owned(stack[i]))', 'forall(0, len(pool), lambda i: owned(pool[i]))',
+           'prop[0] is None or owned(prop[0])',
+           'forall(0, len(stack), lambda i: tok_ok(stack[i], len(source)))',
+           'forall(0, len(pool), lambda i: len(pool[i]) == 3)',
+           'prop[0] is None or tok_ok(prop[0], len(source))',
+           'forall(0, len(result), lambda i: range_in(result[i], 0, len(source)))']
+
+fn('emmet.css_matcher:balanced_outward.<locals>.scan_callback', props=P,
+   params=CB_PARAMS, returns='bool|None', captures=OUT_CAP,
+   requires=CB_REQ, closure_invariant=OUT_INV, modifies=['owned'])
+
+fn('emmet.css_matcher:balanced_outward', props=P,
+   params={'source': 'str', 'pos': 'int'}, returns='list[tuple[int,int]]',
+   requires=[],
+   ensures=['forall(0, len(result), lambda i: range_in(result[i], 0, len(source)))'],
+   modifies=[], allocates=True,
+   locals={'pool': 'list[list[int]]', 'stack': 'list[list[int]]', 'result': 'list[tuple[int,int]]',
+           'prop': 'list[list[int]|None]'})
